@@ -134,6 +134,12 @@ func cmdSchedRec(o *Out, line string, f []string) {
 	// trailing increments: after a tick has passed the workers increment again and EndTest follows directly (no
 	// EndIteration in between): EndTest persists what the cycle accumulated, twice G*M
 	trail := len(f) > 9 && f[9] == "trail"
+	if len(f) > 10 && f[10] == "pre" {
+		// increments outside any iteration, then Reset: discarded, the cycles that follow start from zero
+		rec.IncOperations(1000)
+		rec.IncError(7)
+		rec.Reset()
+	}
 	var finals []string
 	var endErrs int
 	for c := 0; c < cycles; c++ {
@@ -298,28 +304,33 @@ func cmdRecTick(o *Out, line string, f []string) {
 	ctx, cancel := context.WithCancel(context.Background())
 	defer cancel()
 	var res []string
+	// ONE recorder over ONE collector for all cycles (the flusher is restarted by every cycle's BeginIteration); the
+	// collector's call numbering starts again with every cycle
+	coll := &tickCollector{failAt: map[int]bool{}}
+	slowMode := len(f) > 4 && f[4] == "slow"
+	if slowMode {
+		// the failing background flush is slow (6 ms) and EndTest is called while it is in flight: EndTest waits for it
+		// and reports its error; nothing reaches the collector after EndTest has returned
+		coll.slow = 6 * time.Millisecond
+	}
+	if f[1] != "-" {
+		for _, x := range strings.Split(f[1], ",") {
+			coll.failAt[int(atoi64(x))] = true
+		}
+	}
+	var rec events.Recorder
+	switch kind {
+	case "interval":
+		rec = events.NewIntervalRecorder(ctx, coll, 2*time.Millisecond)
+	case "histInterval":
+		rec = events.NewIntervalHistogramRecorder(ctx, coll, 2*time.Millisecond)
+	default:
+		panic(kind)
+	}
 	for c := 0; c < cycles; c++ {
-		coll := &tickCollector{failAt: map[int]bool{}}
-		slowMode := len(f) > 4 && f[4] == "slow"
-		if slowMode {
-			// the failing background flush is slow (6 ms) and EndTest is called while it is in flight: EndTest waits for it
-			// and reports its error; nothing reaches the collector after EndTest has returned
-			coll.slow = 6 * time.Millisecond
-		}
-		if f[1] != "-" {
-			for _, x := range strings.Split(f[1], ",") {
-				coll.failAt[int(atoi64(x))] = true
-			}
-		}
-		var rec events.Recorder
-		switch kind {
-		case "interval":
-			rec = events.NewIntervalRecorder(ctx, coll, 2*time.Millisecond)
-		case "histInterval":
-			rec = events.NewIntervalHistogramRecorder(ctx, coll, 2*time.Millisecond)
-		default:
-			panic(kind)
-		}
+		coll.mu.Lock()
+		coll.calls, coll.started = 0, 0
+		coll.mu.Unlock()
 		rec.BeginIteration()
 		rec.IncOperations(5)
 		deadline := time.Now().Add(3 * time.Second)
@@ -530,7 +541,7 @@ func streamRecTick(o *Out, rng *rand.Rand, thorough bool, _ []string) {
 	}
 	for _, fa := range fails {
 		for _, kind := range []string{"interval", "histInterval"} {
-			lines = append(lines, fmt.Sprintf("rec-tick %s %s %d %d", kind, fa, 6+rng.Intn(4), 1+rng.Intn(2)))
+			lines = append(lines, fmt.Sprintf("rec-tick %s %s %d %d", kind, fa, 6+rng.Intn(4), 1+rng.Intn(3)))
 			lines = append(lines, fmt.Sprintf("rec-tick %s %s %d %d reset", kind, fa, 3+rng.Intn(4), 1+rng.Intn(2)))
 			if fa != "-" {
 				k := 2 + rng.Intn(3)
@@ -607,7 +618,11 @@ func streamSchedRec(o *Out, rng *rand.Rand, thorough bool, _ []string) {
 		if kind != "sync" && stall == 0 && slow == 0 && cycles <= 6 && rng.Intn(3) == 0 {
 			tr = "trail"
 		}
-		lines = append(lines, fmt.Sprintf("sched-rec %s %d %d %d %d %d %d %d %s %s", kind, G, M, cycles, tick, stall, seed, slow, cb, tr))
+		pre := "-"
+		if rng.Intn(3) == 0 {
+			pre = "pre"
+		}
+		lines = append(lines, fmt.Sprintf("sched-rec %s %d %d %d %d %d %d %d %s %s %s", kind, G, M, cycles, tick, stall, seed, slow, cb, tr, pre))
 	}
 	for _, kind := range []string{"interval", "histInterval"} {
 		lines = append(lines, fmt.Sprintf("sched-rec %s 4 10 3 500 0 0 0 - trail", kind), fmt.Sprintf("sched-rec %s 2 7 2 100 0 0 0 cb trail", kind))
